@@ -353,6 +353,26 @@ def run(check):
             else:
                 case = {"id": cid, "mode": "engine", "files": oprog.files(), "scripts": oscripts, "runs": [], "extra": {"engine": {"input_yaml": json.dumps(odoc)}}}
             items.append((case, {"schema": -3, "kind": "valid", "entry": entry, "valid": True, "expected": ref.normalise_input(osch, odoc), "doc": odoc}))
+    # an input schema all of whose fields have defaults (integers, floats, lists, strings with escapes) and documents that leave
+    # out all or some of them - also the empty document, which is what the command line passes without an input file;
+    # the values are also computed with, so their types matter
+    from ..model import Call, Bin, Lit
+    dsch = InputSchema({"n": {"type": "integer", "required": False, "default": 20}, "f": {"type": "float", "required": False, "default": 1.5},
+                        "l": {"type": ("list", "integer"), "required": False, "default": [1, 2]}, "s": {"type": "string", "required": False, "default": "C:\\temp \"q\"\n\tend \u00e9"},
+                        "b": {"type": "bool", "required": False, "default": True}, "m": {"type": ("map", "string", "integer"), "required": False, "default": {"k": 3}}})
+    for j, ddoc in enumerate([{}, {"n": 5}, {"s": "given"}, {"l": [], "m": {}}, {"n": 0, "f": 0.0, "b": False, "s": ""}]):
+        e1 = gen.plugin_step("e1", "lit", extra_input={"a": Expr(In()), "n": Expr(Bin("+", In("n"), Lit(1)))})
+        e2 = gen.plugin_step("e2", Expr(Call("intToString", In("n"))), extra_input={"a": Expr(In()), "f": Expr(In("f"))})
+        dprog = Program([e1, e2], {"success": {"all": Expr(In()), "e1": Expr(Ref("e1", "outputs", "success", "a")), "e2": Expr(Ref("e2", "outputs", "success")), "sum": Expr(Bin("+", In("n"), Lit(1))), "s": Expr(In("s"))}}, dsch)
+        for entry in ("execute", "engine"):
+            cid = "c19-%05d" % idx
+            idx += 1
+            dscripts = gen.make_scripts(dprog.steps, {})
+            if entry == "execute":
+                case = {"id": cid, "files": dprog.files(), "scripts": dscripts, "runs": [{"input": ddoc}]}
+            else:
+                case = {"id": cid, "mode": "engine", "files": dprog.files(), "scripts": dscripts, "runs": [], "extra": {"engine": {"input_yaml": json.dumps(ddoc)}}}
+            items.append((case, {"schema": -4, "kind": "valid", "entry": entry, "valid": True, "expected": ref.normalise_input(dsch, ddoc), "doc": ddoc, "sum": ddoc.get("n", 20) + 1}))
     # one step registry (one engine instance) used for several workflow trees whose sub-workflow file has the same name but
     # another input schema: the items of each tree's loop are normalised by that tree's own sub-workflow schema. Each tree is
     # also run alone; its result in the sequence must be the same
@@ -451,6 +471,12 @@ def run(check):
         for e in ev:
             if e["kind"] == "exec-start" and e["src"] in ("e1", "e2"):
                 seen[e["src"]] = ref.denum((e.get("data") or {}).get("raw") or {}).get("a")
+        if "sum" in m:
+            got_sum = (data or {}).get("sum")
+            got_n = [ref.denum((e.get("data") or {}).get("raw") or {}).get("n") for e in ev if e["kind"] == "exec-start" and e["src"] == "e1"]
+            if got_sum != m["sum"] or isinstance(got_sum, float) or got_n[:1] != [m["sum"]] or (data or {}).get("s") != exp.get("s"):
+                check.report("input@normalisation:computed:" + m["entry"], "all-defaults schema, document %r: $.input.n + 1 gave %r in the output and %r in the step input (expected the integer %r); s = %r (expected %r)" % (
+                    m["doc"], got_sum, got_n[:1], m["sum"], (data or {}).get("s"), exp.get("s")), {"case": case, "expected": exp, "got": data})
         pk = m.get("per_field")
         if pk:
             fkeys = m.get("out_fields") or []
